@@ -22,7 +22,7 @@ CHECK = {
     ],
     "opts": {"unwind": 8, "substitute": SUB},
     "stop": [k for k in SUB.keys() if not k.startswith("time.")],
-    "timeout_ms": {"quick": 400000, "thorough": 1800000},
+    "timeout_ms": {"quick": 900000, "thorough": 2400000},
     "explanation": "One inductive step over the replicator. The real (*replicatorActor).Receive -> handleMessage is executed symbolically for one arbitrary message from an arbitrary state satisfying Inv = 'a tombstoned key has no value in the store', one job per message kind: "
                    "handleUpdate, handleGet (incl. coordinatedRead, targetCount, selectPeers), handleDelete (incl. coordinatedTombstone), handleDelta, handleProtoDelta/decodeDelta, handleProtoTombstone, handleFullState, handleIncomingBatch, handlePrune, plus trackKey, publishDelta/encodeDelta, coordinatedWrite, notifyChanged and the real codec.DecodeCRDTKey/EncodeCRDTKey and crdt.Config. "
                    "Pre-state: each of the keys k1,k2,k3 is absent, live (arbitrary value/version) or tombstoned (arbitrary deletedAt, local or remote deleter, key type remembered or not); TombstoneTTL is any positive duration; cross-DC buffering on or off. "
